@@ -8,6 +8,24 @@ TRANSLATOR = "verif-extract (go/ast + go/types translator /repo -> Cql/Gen/*.lea
 HARNESS = "verif-harness correspondence run (differential, sampled; never a substitute for a theorem)"
 
 PROPS = {
+    "C16": {
+        "gens": [],
+        "lean_targets": ["Cql.Props.C16"],
+        "harness_timeout": 5400,
+        "trusted_base": COMMON_TRUST + [HARNESS,
+            "Cql/Timer.lean: hand-written timed model of the request life-cycle in client/inflight.go (one timer per request, restarted on every "
+            "non-final page, cancelled with the request; handler close), tied to the code by real-time histories executed through the `verif` "
+            "export shim client/verif_hooks.go",
+            "the connection-level clauses (Close returns, blocked callers return, no goroutine survives, no panic) are OBSERVED on the real client "
+            "and server under fault injection at every step boundary; they are not carried by a theorem"],
+        "assumptions": [
+            "timers fire when due, before any later event (histories are generated with every deadline at least two time units away from any "
+            "event, so that scheduling jitter cannot change the expected outcome)",
+            "a positive read timeout",
+            "one event = one handler call (API-level atomicity); the interleaving of the internal steps of Close with concurrent senders is "
+            "explored by the fault-injection scenarios, not proved",
+        ],
+    },
     "C02": {
         "lean_targets": ["Cql.Props.C02"],
         "trusted_base": COMMON_TRUST + [TRANSLATOR + " (constants: every flag mask, opcode, version, query/prepare/batch/rows flag of Cql/Spec is proved equal "
@@ -215,6 +233,20 @@ PROPS = {
 }
 
 MANIFEST_TEXT = {
+    "C16": {
+        "text": "Lean theorems over a timed model of the in-flight request life-cycle, for EVERY history of {send, response page, last page, "
+                "passing of time, handler close}: the channel of a request is closed at most once (no double-close panic) and IsDone holds "
+                "exactly when it is closed; closing the handler completes every pending request with a non-nil error, leaves no timer running "
+                "and refuses later sends and deliveries; every unfinished request has exactly one live timer, due one read timeout after its "
+                "last activity; a request fails with the timeout error only after a full read timeout of silence (never while pages keep "
+                "arriving) and does fail once that time has passed. Partial: Close returning, blocked callers returning, goroutines not "
+                "surviving and absence of panics in the connection goroutines are runtime behaviour the model cannot exhibit; they are "
+                "observed on the real client/server with close, server close, context cancellation and TCP loss injected at every step "
+                "boundary, with and without concurrent senders/receivers (each scenario in its own process).",
+        "design_ref": "DESIGN.md §5 C16",
+        "note": "Partial (see text). Trusted: Lean kernel; the timed model (real-time correspondence); the fault-injection harness.",
+        "technique": "Lean 4 invariant proof over all timed histories of a life-cycle model + real-time trace correspondence + fault-injection observation",
+    },
     "C02": {
         "text": "Lean refinement theorems between two independently written models: for every supported version, every message kind (all ERROR, "
                 "RESULT, EVENT variants, every optional-field subset, nested column types) and every version-valid frame, the code-shaped "
